@@ -449,20 +449,8 @@ def tr_compiler(out: List[str], skel: Dict[str, str]) -> None:
     ctree = pyast.parse(_read("compiler/bitproto/renderer/impls/c/formatter.py"))
     names = [n.name for n in pyast.walk(ctree) if isinstance(n, pyast.FunctionDef)]
     expect("get_nbits_of_integer" not in names, "the C formatter now overrides get_nbits_of_integer")
-    for cls_fn in ("format_uint_type", "format_int_type", "format_bool_type", "format_byte_type", "format_bp_type",
-                   "format_bp_type_flag", "format_bp_bool", "format_bp_int", "format_bp_uint", "format_bp_byte",
-                   "format_bp_message", "format_bp_enum", "format_bp_array", "format_bp_alias",
-                   "format_bp_message_descriptor", "format_bp_alias_descriptor", "format_bp_array_descriptor",
-                   "format_sizeof", "format_array_type"):
-        fns = [n for n in pyast.walk(ctree) if isinstance(n, pyast.FunctionDef) and n.name == cls_fn]
-        expect(len(fns) == 1, f"C formatter: {cls_fn} not found exactly once")
-        skel[f"c/formatter.py:{cls_fn}"] = hashlib.sha256(pyast.dump(fns[0]).encode()).hexdigest()[:24]
-    rtree = pyast.parse(_read("compiler/bitproto/renderer/impls/c/renderer_c.py"))
-    for cls in ("BlockMessageProcessorFieldItem", "BlockMessageProcessorFieldList", "BlockMessageDescriptorBuild",
-                "BlockMessageProcessor"):
-        cs = [n for n in pyast.walk(rtree) if isinstance(n, pyast.ClassDef) and n.name == cls]
-        expect(len(cs) == 1, f"renderer_c.py: class {cls} not found")
-        skel[f"c/renderer_c.py:{cls}"] = hashlib.sha256(pyast.dump(cs[0]).encode()).hexdigest()[:24]
+    # what the C formatter/renderer EMIT (BpType constructors, sizeof expressions, field tables) is tied by T1:
+    # tools/t1_c.py parses the emitted descriptors of every generated schema and Coq compares them with CRt.render
 
 
 def gen_c() -> Tuple[str, Dict[str, str]]:
